@@ -166,6 +166,9 @@ let run_case (fields : ostring list) : ostring =
   | ["PA"; text] -> obs_parse (bytes_of_hex text)
   | ["EV"; text; off; hosts; data] -> obs_eval (bytes_of_hex text) (z_of_dec off) hosts data
   | "NOP" :: _ -> "-"
+  | ["TD"; ns; off] ->   (* toDay as a function of one clock reading *)
+    let t = today_of { t_ns = z_of_dec ns; t_off = z_of_dec off } in
+    Printf.sprintf "%s:%s" (string_of_zint t.t_ns) (string_of_zint t.t_off)
   | ["RH"; hosts; maps; ops] -> obs_history hosts maps ops
   | ["FD"; text] -> obs_fields (bytes_of_hex text)
   | cmd :: _ -> "unknown-command:" ^ cmd
